@@ -33,7 +33,7 @@ CONSTANTS
     BindHosts,    \* hosts on which Bind is explored
     BindAddrs,    \* address names used by Bind
     BindPorts,    \* ports used by Bind (0 = ephemeral)
-    PeerChoices,  \* set of <<addr, port>> used by ConnectUdp
+    PeerAddrs,    \* addresses a used by ConnectUdp (peer = <<a, ProbePort>>)
     ConnHosts,    \* hosts that issue TCP connects
     ConnAddrs,    \* destination addresses of TCP connects
     ConnPorts,    \* fixed destination ports of TCP connects (live listener ports are always tried)
@@ -42,6 +42,8 @@ CONSTANTS
     NoWrap,       \* TRUE: disable allocations whose scan would pass EphHi (so the
                   \*       behaviour is the same on the real 16 384-port range)
     ProbeActs,    \* TRUE: Probe* actions are part of Next (design-level run)
+    FillFrom,     \* 0, or a port: every (BindHosts, Protos, Fams) starts with a block of sockets
+                  \* bound to "lo" on FillFrom..EphHi (how the harness shrinks the real range)
     SwAddrs,      \* set of probe destination addresses (sweeps)
     SwPorts       \* set of probe destination ports (sweeps)
 
@@ -64,7 +66,7 @@ ProbePort == 40000     \* UDP prober sockets (outside the model's port universe)
 SynPort   == 40001     \* source port of SYN probes put on the wire by the harness
 
 ISock(h, proto, fam, addr, port, peer, listen, mate) ==
-    [h |-> h, proto |-> proto, fam |-> fam, addr |-> addr, port |-> port,
+    [h |-> h, proto |-> proto, fam |-> fam, addr |-> addr, port |-> port, hi |-> port,
      peer |-> peer, listen |-> listen, mate |-> mate, open |-> TRUE]
 
 ---------------------------------------------------------------------------
@@ -82,14 +84,19 @@ OnPort(h, fam, proto, p) ==
 \* (the scan did not pass EphHi)].
 Alloc(h, fam, proto) ==
     LET R == EphHi - EphLo + 1
-        c == cursor[h]
-        free == {p \in EphLo..EphHi : OnPort(h, fam, proto, p) = {}}
+        c == IF cursor[h] > EphHi THEN EphLo ELSE cursor[h]
+        ks == {k \in 1..Len(binds[h]) : binds[h][k].fam = fam /\ binds[h][k].proto = proto}
+        used == (UNION {binds[h][k].port..binds[h][k].hi : k \in ks}) \cap (EphLo..EphHi)
+        n == Cardinality(used)
+        \* the first n+1 candidates of the scan contain a free port iff one exists
+        W == {EphLo + ((c - EphLo + i) % R) : i \in 0..(IF n + 1 < R THEN n ELSE R - 1)}
+        free == W \ used
         dist(p) == (p - c + R) % R
-    IN IF free = {} THEN [port |-> 0, cur |-> c, faithful |-> FALSE]
+    IN IF free = {} THEN [port |-> 0, cur |-> cursor[h], faithful |-> FALSE]
        ELSE LET p == CHOOSE p \in free : \A q \in free : dist(p) <= dist(q)
             IN [port |-> p,
                 cur |-> IF p = EphHi THEN (IF NoWrap THEN EphHi + 1 ELSE EphLo) ELSE p + 1,
-                faithful |-> p >= c]
+                faithful |-> cursor[h] <= EphHi /\ p >= c]
 
 \* SocketTable::insert_binding: entry(key).or_default().push(fd)
 InsertBinding(bs, fam, proto, addr, port, fd) ==
@@ -99,7 +106,7 @@ InsertBinding(bs, fam, proto, addr, port, fd) ==
             IF bs[k].fam = fam /\ bs[k].proto = proto /\ bs[k].addr = addr
                /\ bs[k].port = port /\ bs[k].hi = port
             THEN [bs[k] EXCEPT !.fds = Append(@, fd)] ELSE bs[k]]
-    ELSE Append(bs, [fam |-> fam, proto |-> proto, addr |-> addr, port |-> port, hi |-> port, fds |-> <<fd>>])
+    ELSE Append(bs, [fam |-> fam, proto |-> proto, addr |-> addr, port |-> port, hi |-> port, fds |-> <<fd>>, h |-> 0])
 
 \* SocketTable::remove: bindings.retain(..), connections.retain(..)
 RemoveFds(bs, fdset) ==
@@ -152,7 +159,9 @@ ImplSyn(from, fam, sa, sp, da, dp) ==
         fc == IF T = 0 THEN 0 ELSE FindConnIn(conns[T], fam, da, dp, sa, sp)
         fl == IF T = 0 THEN 0 ELSE FindListenerIn(binds[T], isock, fam, da, dp)
     IN IF T = 0 THEN [reply |-> "none", obs |-> {}]
-       ELSE IF fc # 0 THEN [reply |-> "none", obs |-> {}]       \* handle_established ignores a bare SYN
+       \* handle_established: a segment that occupies sequence space but is not accepted is
+       \* answered with a bare ACK (repo commit b7a1b92); before that commit it was ignored
+       ELSE IF fc # 0 THEN [reply |-> "ack", obs |-> {}]
        ELSE IF fl # 0 THEN [reply |-> "synack", obs |-> {fl}]
        ELSE [reply |-> "rst", obs |-> {}]
 
@@ -164,10 +173,28 @@ ImplData(c) ==
     IN IF fc = 0 THEN {} ELSE {fc}
 
 ---------------------------------------------------------------------------
+\* blocks of pre-bound sockets (one block per host / protocol / family), in a fixed order
+FillKeys == IF FillFrom = 0 THEN {} ELSE BindHosts \X Protos \X Fams
+FillOrd(k) == k[1] * 100 + (IF k[2] = "udp" THEN 0 ELSE 10) + k[3]
+FillSeq == LET RECURSIVE Ord(_)
+               Ord(S) == IF S = {} THEN <<>>
+                         ELSE LET m == CHOOSE x \in S : \A y \in S : FillOrd(x) <= FillOrd(y)
+                              IN <<m>> \o Ord(S \ {m})
+           IN Ord(FillKeys)
+
 Init ==
-    /\ PInit
-    /\ isock = <<>>
-    /\ binds = [h \in Hosts |-> <<>>]
+    /\ bindOk = TRUE /\ freshOk = TRUE /\ demuxOk = TRUE
+    /\ lastObs = [ev |-> "init"]
+    /\ socks = [i \in 1..Len(FillSeq) |->
+                  Sock(FillSeq[i][1], FillSeq[i][2], FillSeq[i][3], "lo", FillFrom, EphHi, NoPeer, "fill")]
+    /\ isock = [i \in 1..Len(FillSeq) |->
+                  [ISock(FillSeq[i][1], FillSeq[i][2], FillSeq[i][3], "lo", FillFrom, NoPeer, FALSE, 0)
+                     EXCEPT !.hi = EphHi]]
+    /\ binds = [h \in Hosts |->
+                  SelectSeq([i \in 1..Len(FillSeq) |->
+                               [fam |-> FillSeq[i][3], proto |-> FillSeq[i][2], addr |-> "lo",
+                                port |-> FillFrom, hi |-> EphHi, fds |-> <<i>>, h |-> FillSeq[i][1]]],
+                            LAMBDA e : e.h = h)]
     /\ conns = [h \in Hosts |-> <<>>]
     /\ cursor = [h \in Hosts |-> EphLo]
     /\ nops = 0
@@ -176,28 +203,39 @@ Init ==
 Budget == nops < MaxOps
 Step == nops' = nops + 1
 
-(* Kernel::bind (UdpSocket::bind / TcpListener::bind = bind + listen) *)
-Bind(h, proto, fam, addr, port) ==
+(* Kernel::bind (UdpSocket::bind / TcpListener::bind = bind + listen).     *)
+(* BindCalc = the decision (locality check, allocate_port, conflict walk),  *)
+(* BindDo = the state change.                                               *)
+NoAlloc == [port |-> 0, cur |-> 0, faithful |-> TRUE]
+BindCalc(h, proto, fam, addr, port) ==
     LET notLocal == addr # "wild" /\ ~Local(h, addr)
-        al == Alloc(h, fam, proto)
+        al == IF port = 0 /\ ~notLocal THEN Alloc(h, fam, proto) ELSE NoAlloc
         p == IF port = 0 THEN al.port ELSE port
         clash == \E k \in OnPort(h, fam, proto, p) : AddrClash(binds[h][k].addr, addr)
         res == IF notLocal THEN "AddrNotAvailable"
                ELSE IF port = 0 /\ al.port = 0 THEN "AddrInUse"
                ELSE IF clash THEN "AddrInUse" ELSE "Ok"
-        fd == Len(isock) + 1
+    IN [res |-> res, p |-> IF res = "Ok" THEN p ELSE 0, al |-> al, alloc |-> port = 0 /\ ~notLocal,
+        cls |-> IF res = "Ok" THEN (IF port = 0 THEN "OkEphemeral" ELSE "OkFixed")
+                ELSE IF res = "AddrInUse" THEN (IF port = 0 THEN "Exhausted" ELSE "InUse")
+                ELSE "NotLocal"]
+
+BindDo(h, proto, fam, addr, port, c) ==
+    LET fd == Len(isock) + 1
     IN /\ Budget /\ Len(isock) < MaxSocks
-       /\ (NoWrap /\ port = 0 /\ ~notLocal) => al.faithful
-       /\ cursor' = IF port = 0 /\ ~notLocal THEN [cursor EXCEPT ![h] = al.cur] ELSE cursor
-       /\ IF res = "Ok"
-          THEN /\ isock' = Append(isock, ISock(h, proto, fam, addr, p, NoPeer, proto = "tcp", 0))
-               /\ binds' = [binds EXCEPT ![h] = InsertBinding(@, fam, proto, addr, p, fd)]
+       /\ (NoWrap /\ c.alloc) => c.al.faithful
+       /\ cursor' = IF c.alloc THEN [cursor EXCEPT ![h] = c.al.cur] ELSE cursor
+       /\ IF c.res = "Ok"
+          THEN /\ isock' = Append(isock, ISock(h, proto, fam, addr, c.p, NoPeer, proto = "tcp", 0))
+               /\ binds' = [binds EXCEPT ![h] = InsertBinding(@, fam, proto, addr, c.p, fd)]
           ELSE UNCHANGED <<isock, binds>>
        /\ UNCHANGED conns
-       /\ P_Bind(h, proto, fam, addr, port, res, IF res = "Ok" THEN p ELSE 0)
+       /\ P_Bind(h, proto, fam, addr, port, c.res, c.p)
        /\ last' = [a |-> "bind", h |-> h, proto |-> proto, fam |-> fam, addr |-> addr, port |-> port,
-                   res |-> res, got |-> IF res = "Ok" THEN p ELSE 0, sid |-> IF res = "Ok" THEN fd ELSE 0]
+                   res |-> c.res, got |-> c.p, sid |-> IF c.res = "Ok" THEN fd ELSE 0]
        /\ Step
+
+Bind(h, proto, fam, addr, port) == BindDo(h, proto, fam, addr, port, BindCalc(h, proto, fam, addr, port))
 
 (* Kernel::close of a UDP socket or of a listener (no unaccepted children *)
 (* exist between actions: Connect accepts at once)                         *)
@@ -243,36 +281,47 @@ LiveListenerPorts(fam) ==
 
 (* TcpStream::connect(da:dp) from host h, the wire delivering everything   *)
 (* at once, followed by accept on the listener that got the connection.    *)
-Connect(h, fam, da, dp) ==
+ConnCalc(h, fam, da, dp) ==
     LET lip == IF da = "lo" THEN "lo" ELSE FirstAddr(h)          \* tcp::auto_bind
         al == Alloc(h, fam, "tcp")
         ep == al.port
         T == Route(h, da)
         cfd == Len(isock) + 1
+        bindsC == [binds EXCEPT ![h] = InsertBinding(@, fam, "tcp", lip, ep, cfd)]
+        isockC == Append(isock, ISock(h, "tcp", fam, lip, ep, <<da, dp>>, FALSE, cfd + 1))
+        fl == IF T = 0 \/ ep = 0 THEN 0 ELSE FindListenerIn(bindsC[T], isockC, fam, da, dp)
+    IN [lip |-> lip, al |-> al, ep |-> ep, T |-> T, fl |-> fl,
+        res |-> IF ep = 0 THEN "AddrInUse"
+                ELSE IF T = 0 THEN "NoReply"
+                ELSE IF fl = 0 THEN "Refused" ELSE "Ok"]
+
+ConnDo(h, fam, da, dp, c) ==
+    LET lip == c.lip
+        ep == c.ep
+        T == c.T
+        cfd == Len(isock) + 1
         kfd == Len(isock) + 2
         bindsC == [binds EXCEPT ![h] = InsertBinding(@, fam, "tcp", lip, ep, cfd)]
         connsC == [conns EXCEPT ![h] = Append(@, [fam |-> fam, la |-> lip, lp |-> ep, ra |-> da, rp |-> dp, fd |-> cfd])]
         isockC == Append(isock, ISock(h, "tcp", fam, lip, ep, <<da, dp>>, FALSE, kfd))
-        fl == IF T = 0 THEN 0 ELSE FindListenerIn(bindsC[T], isockC, fam, da, dp)
-        res == IF ep = 0 THEN "AddrInUse"
-               ELSE IF T = 0 THEN "NoReply"
-               ELSE IF fl = 0 THEN "Refused" ELSE "Ok"
     IN /\ Budget /\ Len(isock) + 2 <= MaxSocks
        /\ dp \in ConnPorts \cup LiveListenerPorts(fam)
-       /\ NoWrap => al.faithful
+       /\ NoWrap => c.al.faithful
        \* a SYN that meets its own SynSent socket (self-connect) is outside the model
        /\ ~(ep # 0 /\ T = h /\ da = lip /\ dp = ep)
-       /\ cursor' = [cursor EXCEPT ![h] = al.cur]
-       /\ IF res = "Ok"
+       /\ cursor' = [cursor EXCEPT ![h] = c.al.cur]
+       /\ IF c.res = "Ok"
           THEN /\ isock' = Append(isockC, ISock(T, "tcp", fam, da, dp, <<lip, ep>>, FALSE, cfd))
                /\ binds' = [bindsC EXCEPT ![T] = InsertBinding(@, fam, "tcp", da, dp, kfd)]
                /\ conns' = [connsC EXCEPT ![T] = Append(@, [fam |-> fam, la |-> da, lp |-> dp, ra |-> lip, rp |-> ep, fd |-> kfd])]
           ELSE UNCHANGED <<isock, binds, conns>>        \* the SynSent socket is reaped by FdGuard
-       /\ P_Connect(h, fam, da, dp, res, fl, <<lip, ep>>, <<da, dp>>)
-       /\ last' = [a |-> "connect", h |-> h, fam |-> fam, da |-> da, dp |-> dp, res |-> res, acc |-> fl,
+       /\ P_Connect(h, fam, da, dp, c.res, c.fl, <<lip, ep>>, <<da, dp>>)
+       /\ last' = [a |-> "connect", h |-> h, fam |-> fam, da |-> da, dp |-> dp, res |-> c.res, acc |-> c.fl,
                    cla |-> lip, clp |-> ep,
-                   csid |-> IF res = "Ok" THEN cfd ELSE 0, ksid |-> IF res = "Ok" THEN kfd ELSE 0]
+                   csid |-> IF c.res = "Ok" THEN cfd ELSE 0, ksid |-> IF c.res = "Ok" THEN kfd ELSE 0]
        /\ Step
+
+Connect(h, fam, da, dp) == ConnDo(h, fam, da, dp, ConnCalc(h, fam, da, dp))
 
 ---------------------------------------------------------------------------
 (* Probes.  They change nothing but the ghost verdict variables. *)
@@ -280,18 +329,35 @@ Connect(h, fam, da, dp) ==
 SwAddrSet == SwAddrs
 SwPortSet == SwPorts
 
-ProbeUdp(from, fam, da, dp) ==
-    LET sa == FirstAddr(from)
-    IN /\ P_ProbeUdp(from, fam, sa, ProbePort, da, dp, ImplUdp(from, fam, sa, ProbePort, da, dp))
-       /\ UNCHANGED ivars
-       /\ last' = [a |-> "probe_udp"]
+\* which branch of udp::deliver / tcp::deliver a probe takes (for the vacuity guard only)
+UdpClass(from, fam, sa, sp, da, dp) ==
+    LET T == Route(from, da)
+        ex == IF T = 0 THEN 0 ELSE EntryAt(T, fam, "udp", da, dp)
+        wi == IF T = 0 THEN 0 ELSE EntryAt(T, fam, "udp", "wild", dp)
+    IN IF T = 0 THEN "unowned"
+       ELSE IF ex = 0 /\ wi = 0 THEN "nobody"
+       ELSE IF ImplUdp(from, fam, sa, sp, da, dp) = {} THEN "filtered"
+       ELSE IF ex # 0 THEN "exact" ELSE "wild"
+
+SynClass(from, fam, sa, sp, da, dp) ==
+    LET T == Route(from, da)
+        r == ImplSyn(from, fam, sa, sp, da, dp)
+    IN IF T = 0 THEN "unowned"
+       ELSE IF r.reply = "rst" THEN "rst"
+       ELSE IF r.reply = "ack" THEN "conn"
+       ELSE IF isock[CHOOSE x \in r.obs : TRUE].addr = "wild" THEN "wild" ELSE "exact"
+
+ProbeUdp(from, fam, sa, sp, da, dp) ==
+    /\ P_ProbeUdp(from, fam, sa, sp, da, dp, ImplUdp(from, fam, sa, sp, da, dp))
+    /\ UNCHANGED ivars
+    /\ last' = [a |-> "probe_udp", cls |-> UdpClass(from, fam, sa, sp, da, dp)]
 
 ProbeSyn(from, fam, sa, sp, da, dp) ==
     LET r == ImplSyn(from, fam, sa, sp, da, dp)
-    IN /\ da # "lo"                         \* the wire cannot carry loopback
+    IN /\ ~Local(from, da)                  \* loopback / own-address traffic never is on the wire
        /\ P_ProbeSyn(from, fam, sa, sp, da, dp, r.reply, r.obs)
        /\ UNCHANGED ivars
-       /\ last' = [a |-> "probe_syn"]
+       /\ last' = [a |-> "probe_syn", cls |-> SynClass(from, fam, sa, sp, da, dp)]
 
 ProbeData(c) ==
     /\ c \in 1..Len(isock) /\ isock[c].open /\ isock[c].mate # 0
@@ -306,31 +372,88 @@ SynSources(from) ==
       \cup {<<isock[i].addr, isock[i].port>> : i \in {j \in 1..Len(isock) :
                  isock[j].open /\ isock[j].mate # 0 /\ isock[j].h = from /\ isock[j].addr # "lo"}}
 
-BindMC  == \E h \in BindHosts, proto \in Protos, fam \in Fams, addr \in BindAddrs, port \in BindPorts :
-              Bind(h, proto, fam, addr, port)
+\* Bind / Connect split by outcome, so that -coverage shows that every outcome
+\* class of the two oracles was exercised (vacuity guard)
+BindClass(cls) ==
+    \E h \in BindHosts, proto \in Protos, fam \in Fams, addr \in BindAddrs, port \in BindPorts :
+        LET c == BindCalc(h, proto, fam, addr, port)
+        IN c.cls = cls /\ BindDo(h, proto, fam, addr, port, c)
+BindOkFixed     == BindClass("OkFixed") /\ last'.a = "bind"      \* (this conjunct makes -coverage name the action)
+BindOkEphemeral == BindClass("OkEphemeral") /\ last'.a = "bind"
+BindInUse       == BindClass("InUse") /\ last'.a = "bind"
+BindExhausted   == BindClass("Exhausted") /\ last'.a = "bind"
+BindNotLocal    == BindClass("NotLocal") /\ last'.a = "bind"
 CloseMC == \E s \in 1..Len(isock) : Close(s)
 CloseConnMC == \E c \in 1..Len(isock) : CloseConn(c)
-ConnectUdpMC == \E s \in 1..Len(isock), peer \in PeerChoices : ConnectUdp(s, peer)
-ConnectMC == \E h \in ConnHosts, fam \in Fams, da \in ConnAddrs, dp \in ConnPorts \cup SwPortSet :
-              "tcp" \in Protos /\ Connect(h, fam, da, dp)
-ProbeUdpMC == \E from \in Hosts, fam \in Fams, da \in SwAddrSet, dp \in SwPortSet :
-              ProbeActs /\ "udp" \in Protos /\ ProbeUdp(from, fam, da, dp)
-ProbeSynMC == \E from \in Hosts, fam \in Fams, da \in SwAddrSet, dp \in SwPortSet :
+ConnectUdpMC == \E s \in 1..Len(isock), pa \in PeerAddrs : ConnectUdp(s, <<pa, ProbePort>>)
+ConnectClass(res) ==
+    \E h \in ConnHosts, fam \in Fams, da \in ConnAddrs : \E dp \in ConnPorts \cup LiveListenerPorts(fam) :
+        /\ "tcp" \in Protos /\ Budget /\ Len(isock) + 2 <= MaxSocks
+        /\ LET c == ConnCalc(h, fam, da, dp)
+           IN c.res = res /\ ConnDo(h, fam, da, dp, c)
+ConnectOk      == ConnectClass("Ok") /\ last'.a = "connect"
+ConnectRefused == ConnectClass("Refused") /\ last'.a = "connect"
+ConnectNoReply == ConnectClass("NoReply") /\ last'.a = "connect"
+ConnectNoPort  == ConnectClass("AddrInUse") /\ last'.a = "connect"
+ProbeUdpAny == \E from \in Hosts, fam \in Fams, da \in SwAddrSet, dp \in SwPortSet :
+              ProbeActs /\ "udp" \in Protos /\ ProbeUdp(from, fam, FirstAddr(from), ProbePort, da, dp)
+ProbeUdpExact    == ProbeUdpAny /\ last'.cls = "exact"
+ProbeUdpWild     == ProbeUdpAny /\ last'.cls = "wild"
+ProbeUdpFiltered == ProbeUdpAny /\ last'.cls = "filtered"
+ProbeUdpNobody   == ProbeUdpAny /\ last'.cls = "nobody"
+ProbeUdpUnowned  == ProbeUdpAny /\ last'.cls = "unowned"
+ProbeSynAny == \E from \in Hosts, fam \in Fams, da \in SwAddrSet, dp \in SwPortSet :
               \E src \in SynSources(from) :
               ProbeActs /\ "tcp" \in Protos /\ ProbeSyn(from, fam, src[1], src[2], da, dp)
+ProbeSynExact   == ProbeSynAny /\ last'.cls = "exact"
+ProbeSynWild    == ProbeSynAny /\ last'.cls = "wild"
+ProbeSynConn    == ProbeSynAny /\ last'.cls = "conn"
+ProbeSynRst     == ProbeSynAny /\ last'.cls = "rst"
+ProbeSynUnowned == ProbeSynAny /\ last'.cls = "unowned"
 ProbeDataMC == \E c \in 1..Len(isock) : ProbeActs /\ ProbeData(c)
 
+\* the alphabet split by outcome class / demux branch (vacuity runs with -coverage)
+NextCov ==
+    \/ BindOkFixed
+    \/ BindOkEphemeral
+    \/ BindInUse
+    \/ BindExhausted
+    \/ BindNotLocal
+    \/ CloseMC
+    \/ CloseConnMC
+    \/ ConnectUdpMC
+    \/ ConnectOk
+    \/ ConnectRefused
+    \/ ConnectNoReply
+    \/ ConnectNoPort
+    \/ ProbeUdpExact
+    \/ ProbeUdpWild
+    \/ ProbeUdpFiltered
+    \/ ProbeUdpNobody
+    \/ ProbeUdpUnowned
+    \/ ProbeSynExact
+    \/ ProbeSynWild
+    \/ ProbeSynConn
+    \/ ProbeSynRst
+    \/ ProbeSynUnowned
+    \/ ProbeDataMC
+
+\* the alphabet (design-level runs, behaviour generation)
+BindMC == /\ \E h \in BindHosts, proto \in Protos, fam \in Fams, addr \in BindAddrs, port \in BindPorts :
+                Bind(h, proto, fam, addr, port)
+          /\ last'.a = "bind"
+ConnectMC == /\ \E h \in ConnHosts, fam \in Fams, da \in ConnAddrs : \E dp \in ConnPorts \cup LiveListenerPorts(fam) :
+                "tcp" \in Protos /\ Budget /\ Len(isock) + 2 <= MaxSocks /\ Connect(h, fam, da, dp)
+             /\ last'.a = "connect"
 Next ==
     \/ BindMC
     \/ CloseMC
     \/ CloseConnMC
     \/ ConnectUdpMC
     \/ ConnectMC
-    \/ ProbeUdpMC
-    \/ ProbeSynMC
-    \/ ProbeDataMC
 
 Spec == Init /\ [][Next]_vars
+SpecCov == Init /\ [][NextCov]_vars
 
 View == <<socks, bindOk, freshOk, demuxOk, ivars>>
 
@@ -345,8 +468,10 @@ ImplInv ==
     /\ \A i \in 1..Len(isock) :
           /\ isock[i].open = socks[i].live
           /\ isock[i].h = socks[i].h /\ isock[i].proto = socks[i].proto /\ isock[i].fam = socks[i].fam
-          /\ isock[i].addr = socks[i].addr /\ isock[i].port = socks[i].port /\ isock[i].peer = socks[i].peer
+          /\ isock[i].addr = socks[i].addr /\ isock[i].port = socks[i].port /\ isock[i].hi = socks[i].hi
+          /\ isock[i].peer = socks[i].peer
           /\ isock[i].listen = (socks[i].kind = "listener")
+          /\ (isock[i].mate # 0) = (socks[i].kind \in {"client", "child"})
     \* every open bound fd is indexed exactly once under its key, nothing else is indexed
     /\ \A h \in Hosts :
           /\ \A k \in 1..Len(binds[h]) : \A j \in 1..Len(binds[h][k].fds) :
@@ -354,8 +479,10 @@ ImplInv ==
                 f \in OpenFds /\ isock[f].h = h /\ isock[f].addr = binds[h][k].addr
                   /\ isock[f].port = binds[h][k].port /\ isock[f].fam = binds[h][k].fam
           /\ \A f \in OpenFds : isock[f].h = h =>
-                Cardinality({<<k, j>> \in (1..Len(binds[h])) \X (1..MaxSocks) :
-                                j <= Len(binds[h][k].fds) /\ binds[h][k].fds[j] = f}) = 1
+                /\ Cardinality({k \in 1..Len(binds[h]) :
+                                   \E j \in 1..Len(binds[h][k].fds) : binds[h][k].fds[j] = f}) = 1
+                /\ \A k \in 1..Len(binds[h]) :
+                      Cardinality({j \in 1..Len(binds[h][k].fds) : binds[h][k].fds[j] = f}) <= 1
           /\ \A k \in 1..Len(conns[h]) : conns[h][k].fd \in OpenFds
     /\ \A h \in Hosts : cursor[h] \in EphLo..(EphHi + 1)
 
@@ -368,7 +495,7 @@ SweepAgrees ==
         /\ ("udp" \in Protos) =>
               ImplUdp(from, fam, FirstAddr(from), ProbePort, da, dp)
                  = RefUdp(socks, from, fam, FirstAddr(from), ProbePort, da, dp)
-        /\ ("tcp" \in Protos /\ da # "lo") =>
+        /\ ("tcp" \in Protos /\ ~Local(from, da)) =>
               \A src \in SynSources(from) :
                  LET r == ImplSyn(from, fam, src[1], src[2], da, dp)
                      w == RefTcp(socks, from, fam, src[1], src[2], da, dp)
